@@ -10,11 +10,13 @@
 (assert (forall ((n Int)) (! (and (>= (slen (itoa n)) 1) (<= (slen (itoa n)) 20)) :pattern ((itoa n)))))
 (assert (forall ((n Int) (i Int)) (! (and (<= 0 (select (sarr (itoa n)) i)) (<= (select (sarr (itoa n)) i) 255) (=> (or (< i 0) (>= i (slen (itoa n)))) (= (select (sarr (itoa n)) i) 0))) :pattern ((select (sarr (itoa n)) i)))))
 (declare-fun str_upper (Str) Str)
-(assert (forall ((s Str)) (! (= (slen (str_upper s)) (slen s)) :pattern ((str_upper s)))))
+; (the length may change: Unicode case mappings differ in encoded length, invalid bytes become U+FFFD)
+(assert (forall ((s Str)) (! (=> (>= (slen s) 0) (and (>= (slen (str_upper s)) 0) (<= (slen (str_upper s)) (* 4 (slen s))))) :pattern ((str_upper s)))))
 (assert (forall ((s Str) (i Int)) (! (and (<= 0 (select (sarr (str_upper s)) i)) (<= (select (sarr (str_upper s)) i) 255) (=> (or (< i 0) (>= i (slen (str_upper s)))) (= (select (sarr (str_upper s)) i) 0))) :pattern ((select (sarr (str_upper s)) i)))))
 (assert (forall ((s Str)) (! (= (str_upper (str_upper s)) (str_upper s)) :pattern ((str_upper (str_upper s))))))
 (declare-fun str_lower (Str) Str)
-(assert (forall ((s Str)) (! (= (slen (str_lower s)) (slen s)) :pattern ((str_lower s)))))
+; (the length may change: Unicode case mappings differ in encoded length, invalid bytes become U+FFFD)
+(assert (forall ((s Str)) (! (=> (>= (slen s) 0) (and (>= (slen (str_lower s)) 0) (<= (slen (str_lower s)) (* 4 (slen s))))) :pattern ((str_lower s)))))
 (assert (forall ((s Str) (i Int)) (! (and (<= 0 (select (sarr (str_lower s)) i)) (<= (select (sarr (str_lower s)) i) 255) (=> (or (< i 0) (>= i (slen (str_lower s)))) (= (select (sarr (str_lower s)) i) 0))) :pattern ((select (sarr (str_lower s)) i)))))
 (declare-fun str_trim (Str) Str)
 (assert (forall ((s Str)) (! (=> (>= (slen s) 0) (and (>= (slen (str_trim s)) 0) (<= (slen (str_trim s)) (slen s)))) :pattern ((str_trim s)))))
